@@ -8,3 +8,4 @@ from . import lock_rules  # noqa: F401
 from . import schema_rules  # noqa: F401
 from . import taint_rules  # noqa: F401
 from . import abi_rules  # noqa: F401
+from . import misc_rules  # noqa: F401
